@@ -22,14 +22,14 @@ func init() {
 		ID: "C02",
 		Meta: func(tier string) fw.Meta {
 			return fw.Meta{
-				Flavours: []string{"plain", "race", "cover"},
+				Flavours: []string{"plain", "race", "cover", "386"},
 				Blocks:   32,
 				Procs:    16,
-				Rule: "case = (beta < 1000, insertion pattern, history). Patterns: ascending, descending, outward and inward zig-zag, insert-next-to-last-key (bisection), bit-reversal, random; long monotone runs at loose balance factors (beta 900..999) sized 30% beyond the point where a never-rebalanced chain would cross the bound (up to 30000 keys); histories continue on Clones of the tree; each followed or interleaved with removals (random, half drain, drain to empty, then regrow) and Clear; deep-remnant histories: a tree of 200..2047 keys pruned to one deep subtree plus the spine of ancestors holding it in place (deepest-first, random or ascending removals; beta 0 in half of them), then every remaining key touched again by Add and Replace calls that find it present, with fresh insertions next to it. " +
+				Rule: "case = (beta < 1000, insertion pattern, history). Patterns: ascending, descending, outward and inward zig-zag, insert-next-to-last-key (bisection), bit-reversal, random; long monotone runs at loose balance factors (beta 900..999) sized 30% beyond the point where a never-rebalanced chain would cross the bound (up to 30000 keys); histories continue on Clones of the tree; each followed or interleaved with removals (random, half drain, drain to empty, then regrow) and Clear; extremal spines: trees built top-down along one path so that every subtree on it has the smallest size the height rule (or the weight rule rounded down / up) accepts, for balance factors 0..999, followed by insertions at the deep end; deep-remnant histories: a tree of 200..2047 keys pruned to one deep subtree plus the spine of ancestors holding it in place (deepest-first, random or ascending removals; beta 0 in half of them), then every remaining key touched again by Add and Replace calls that find it present, with fresh insertions next to it. " +
 					"After EVERY operation: depth of the deepest node (full traversal through Root/Left/Right for trees <= 300 keys; for larger trees the depth of the key just inserted, via Cursor(k)+Up, plus a full traversal every 64 steps and at the end) against the real-valued bound with P tracked by the monitor; comparator calls made by Get for present and absent keys against floor(bound)+1. " +
 					"Bulk New with n distinct (and duplicated) keys: height == floor(log2 n) for every beta including 1000. beta: quick {0,1,2,50,100,250,300,500,700,750,900,999} + a rotating extra; thorough sweeps all 0..999. " +
 					"distinct = hash(beta, pattern, ops); non-trivial = at some step the deepest key was within one level of log_b(P) (depth >= bound-2; on the unchanged tree the code keeps depth <= log_b(P), one level inside the stated bound)",
-				Required:     []string{"near_limit_steps", "histories_inserting_through_replace", "long_monotone_runs", "clones", "clone_worker_rounds", "steps", "get_comparison_checks", "new_height_checks", "after_remove_checks", "regrow_after_empty", "deep_remnant_histories", "touches_of_present_keys"},
+				Required:     []string{"near_limit_steps", "histories_inserting_through_replace", "long_monotone_runs", "clones", "clone_worker_rounds", "steps", "get_comparison_checks", "new_height_checks", "after_remove_checks", "regrow_after_empty", "deep_remnant_histories", "touches_of_present_keys", "extremal_spine_histories"},
 				Assumptions:  []string{"depth is read through stree.Cursor (Root/Left/Right/Up), which C03 checks separately", "the bound is evaluated in float64 with an epsilon of 1e-9 in the code's favour"},
 				CoverPkgs:    []string{"github.com/creachadair/mds/stree"},
 				CoverAnchors: []string{"stree/stree.go:limitFunc", "stree/stree.go:toFraction", "stree/stree.go:insert", "stree/stree.go:Add", "stree/stree.go:Replace", "stree/stree.go:Remove", "stree/stree.go:incSize", "stree/node.go:rewrite", "stree/node.go:vineToTree", "stree/node.go:treeToVine", "stree/node.go:rotateLeft", "stree/node.go:extract", "stree/stree.go:New"},
@@ -363,6 +363,12 @@ func runC02(c *fw.Ctx) {
 		ok, pv, stack := fw.Try(func() {
 			if long {
 				c02monotoneLong(h)
+			} else if i%6 == 4 {
+				// extremal spines: mostly loose balance factors, where the spine is long
+				sb := []int{999, 995, 990, 980, 970, 950, 930, 900, 870, 850, 800, 700, 600, 500, 250, 0}
+				h.beta = sb[(c.Block+i/6)%len(sb)]
+				beta = h.beta
+				c02spine(h, (i/6+c.Block/4)%4, []int{300, 1000, 2000, 4000}[(i/6+c.Block)%4])
 			} else if i%6 == 2 {
 				if i%12 == 2 {
 					h.beta, beta = 0, 0 // no delete-side rebuild at all
@@ -677,4 +683,84 @@ func c02remnant(h *c02hist) {
 			}
 		}
 	}
+}
+
+// c02spine: extremal trees. A root-to-leaf spine is built top-down in which the
+// subtree at height h above the leaf has the smallest size that a chosen
+// criterion still accepts (the rest of each spine node's weight is a balanced
+// filler subtree on the other side): by the height rule the code documents
+// (smallest s with floor(log_b s) >= h), by the weight rule of the scapegoat
+// literature rounded down or up (s = floor(c/alpha) or ceil(c/alpha) for a
+// path child of size c), or the smaller of the two. Such a tree sits exactly
+// at - or, for the rounded-down variants, just beyond - what a correct
+// implementation tolerates; the insertions that follow at the deep end force
+// scapegoat searches along a path where every ancestor is critical at once.
+// The bound is checked after every insertion.
+func c02spine(h *c02hist, variant, target int) {
+	beta := h.beta
+	h.t = stree.New(beta, func(a, b Elem) int { h.ncmp++; return cmpElem(a, b) })
+	base := math.Log(2000 / float64(1000+beta))
+	limit := func(n int) int { return int(math.Log(float64(n)) / base) }
+	size := []int{1}
+	for ht := 1; size[ht-1] < target && ht < 4000; ht++ {
+		c := size[ht-1]
+		byHeight := c + 1
+		for limit(byHeight) < ht {
+			byHeight++
+		}
+		down := max(c*2000/(1000+beta), c+1)
+		up := max((c*2000+999+beta)/(1000+beta), c+1)
+		s := byHeight
+		switch variant {
+		case 1:
+			s = min(byHeight, down)
+		case 2:
+			s = min(byHeight, up)
+		case 3:
+			s = down
+		}
+		size = append(size, s)
+	}
+	H := len(size) - 1
+	const stride = 1 << 13
+	h.log.add("New(beta=%d); extremal spine of height %d, %d keys, variant %d (0 height rule, 1 min(height, weight rounded down), 2 min(height, weight rounded up), 3 weight rounded down), built top-down", beta, H, size[H], variant)
+	var addBalanced func(lo, hi int)
+	addBalanced = func(lo, hi int) {
+		if lo >= hi || h.failed {
+			return
+		}
+		mid := lo + (hi-lo)/2
+		h.add(mid)
+		addBalanced(lo, mid)
+		addBalanced(mid+1, hi)
+	}
+	quiet := h.log
+	for i := 0; i <= H && !h.failed; i++ {
+		h.add((i+1)*stride - 1)
+		if i < H {
+			filler := size[H-i] - 1 - size[H-i-1]
+			if filler >= stride-1 {
+				filler = stride - 2
+			}
+			addBalanced(i*stride+1, i*stride+1+filler)
+		}
+		if len(h.log.ops) > 400 {
+			h.log = quiet // keep the description, drop the individual Add lines of the construction
+			h.log.add("(... construction continues, level %d of %d ...)", i, H)
+			quiet = h.log
+		}
+	}
+	// then keep inserting at the deep end and next to spine nodes
+	for j := 0; j < 200 && !h.failed; j++ {
+		lvl := H - j%min(H+1, 40)
+		k := (lvl+1)*stride - 2 - j/40
+		if !h.keys[k] {
+			h.add(k)
+		}
+	}
+	if !h.failed {
+		d := h.fullDepth()
+		h.checkDepth(d, "full traversal after the extremal construction")
+	}
+	h.c.Add("extremal_spine_histories", 1)
 }
